@@ -165,10 +165,17 @@ def run(pid, tier, seed, replay=None):
         # library call (every instance), documents with LaTeX commands from both ends of the symbol table
         fitems = []
         for (a, b) in [("texA", "texB")] + ([("texB", "texA"), ("colA", "texB")] if tier == "thorough" else []):
-            seenf = {}
-            for site in sched.list_calls_fresh(a):
-                seenf[site] = seenf.get(site, 0) + 1
-                fitems.append({"id": len(fitems), "A": a, "B": b, "ks": [[site[0], site[1], site[2], seenf[site]]]})
+            # every call instance of a site that is called up to 8 times; of a site called more often (a loop filling a
+            # table, say) the first three, the middle and the last two instances - the run count stays bounded whatever the
+            # library does on first use
+            fcalls = sched.list_calls_fresh(a)
+            total = {}
+            for site in fcalls:
+                total[site] = total.get(site, 0) + 1
+            for site, cnt in total.items():
+                occs = range(1, cnt + 1) if cnt <= 8 else sorted({1, 2, 3, cnt // 2, cnt - 1, cnt})
+                for oc in occs:
+                    fitems.append({"id": len(fitems), "A": a, "B": b, "ks": [[site[0], site[1], site[2], oc]]})
         phase("call listings")
         fresh_runs = pmap(_run_preempt_fresh, fitems, chunk=16)
         phase("fresh-process runs")
